@@ -232,7 +232,7 @@ def gen_program(t, ctx, csres=None):
                 if cstack:
                     cur.update(cstack.pop())
             elif k == 2:
-                m = t.pick([(1, 0, 0, 1, 10, 20), (0, 1, -1, 0, 300, 0), (0, -1, 1, 0, 0, 300), (2, 0, 0, F(1, 2), 0, 0), (1, 0, F(1, 2), 1, 0, 0), (1, F(1, 4), 0, 1, 0, 0), (-1, 0, 0, 1, 500, 0), (1, 0, 0, 1, 0, 0)], "cm")
+                m = t.pick([(1, 0, 0, 1, 10, 20), (0, 1, -1, 0, 300, 0), (0, -1, 1, 0, 0, 300), (2, 0, 0, F(1, 2), 0, 0), (1, 0, F(1, 2), 1, 0, 0), (1, F(1, 4), 0, 1, 0, 0), (-1, 0, 0, 1, 500, 0), (1, 0, 0, 1, 0, 0), (F(1, 2048), 0, 0, F(1, 2048), 0, 0), (F(1, 1000), 0, 0, F(1, 5000), 3, 4), (1024, 0, 0, 1024, 0, 0), (1, 0, 0, 0, 0, 7), (0, 0, 0, 0, 5, 5), (2, 4, 1, 2, 0, 0)], "cm")
                 prog.append(Op("cm", [F(v) for v in m]))
             elif k == 3:
                 prog.append(Op("w", [F(t.rint(0, 20, "w"), 4)]))
